@@ -3,7 +3,9 @@ import itertools
 from .lib import *
 
 RULE = ("exhaustive in both tiers: 9 standard methods x every status 300..399 x both auth policies x response with / without body "
-        "(3600 flows), plus statuses 200, 299, 400 as negative cases for entering the redirect state. Each flow is driven to the "
+        "(3600 flows), plus statuses 200, 299, 400 as negative cases for entering the redirect state, plus the same cells reached on two "
+        "other paths (body method whose Expect: 100-continue is refused by the 3xx response itself; body-less method with "
+        "send_body_despite_method) for the boundary statuses (thorough: every 3xx). Each flow is driven to the "
         "state after the response (through the body when there is one), asked for its status, followed with as_new_flow, and the "
         "new flow's method is read back. oracle = the table of the statement. non-trivial/distinct = every cell")
 TRUSTED_BASE = COMMON_TRUSTED_BASE
@@ -18,12 +20,21 @@ def table(status, method):
     return "HEAD" if method == "HEAD" else "GET"
 
 
-def build(method, status, policy, with_body):
-    if method in BODY_METHODS:
+def build(method, status, policy, with_body, path="plain"):
+    fields = [(b"Location", b"/n")]
+    if path == "refused":
+        # body method with Expect: 100-continue, refused by the very 3xx response while awaiting 100 (the body is never sent)
+        refusal = render_response_head("1.1", status, b"R", fields + [(b"Content-Length", b"3" if with_body else b"0")])
+        ops = [op_new(method, "1.1", "http", "a.test", "/o", [("content-length", "2"), ("expect", "100-continue")]), "proceed", "write_head #4096", "proceed",
+               "raw_try100 %s" % hx(refusal), "proceed"]
+    elif path == "despite":
+        # body-less method sending a body despite the method
+        ops = [op_new(method, "1.1", "http", "a.test", "/o", []), "despite", "proceed", "write_head #4096", "proceed", "write_body %s #100" % hx(b"hi"),
+               "write_body x #100", "proceed"]
+    elif method in BODY_METHODS:
         ops = [op_new(method, "1.1", "http", "a.test", "/o", [("content-length", "0")]), "proceed", "write_head #4096", "proceed", "write_body x #0", "proceed"]
     else:
         ops = [op_new(method, "1.1", "http", "a.test", "/o", []), "proceed", "write_head #4096", "proceed"]
-    fields = [(b"Location", b"/n")]
     if with_body:
         fields.append((b"Content-Length", b"3"))
     else:
@@ -33,13 +44,20 @@ def build(method, status, policy, with_body):
     if with_body and method != "HEAD" and status not in (204, 304) and not (method == "CONNECT" and 200 <= status <= 299):
         ops += ["raw_read %s #100" % hx(b"abc"), "proceed"]
     ops += ["q_status", "as_new_flow %s" % policy, "follow", "q_method", "q_uri"]
-    return {"ops": ops, "meta": {"cell": [method, status, policy, with_body]}}
+    return {"ops": ops, "meta": {"cell": [method, status, policy, with_body], "path": path}}
 
 
 def generate(rng, tier, mult):
     out = []
     for m, s, p, b in itertools.product(METHODS, list(range(300, 400)) + [200, 299, 400], ["never", "same_host"], [False, True]):
         out.append(build(m, s, p, b))
+    # the table is a function of the METHOD: the same cells reached with the body flag cleared (Expect refused by the redirect
+    # itself) or set without a body method (send_body_despite_method)
+    extra_status = list(range(300, 400)) if tier == "thorough" else [300, 301, 302, 303, 304, 305, 307, 308, 399]
+    for m, s, p, b in itertools.product(BODY_METHODS, extra_status, ["never", "same_host"], [False, True]):
+        out.append(build(m, s, p, b, "refused"))
+    for m, s, p, b in itertools.product(["GET", "HEAD", "DELETE", "OPTIONS", "TRACE"], extra_status, ["never", "same_host"], [False, True]):
+        out.append(build(m, s, p, b, "despite"))
     return out
 
 
@@ -52,7 +70,7 @@ def oracle(script, obs):
     ops = script["ops"]
     if any(o == "panic" for o in obs):
         return ["panic in cell %s" % script["meta"]["cell"]]
-    cell = "%s %d %s body=%s" % (m, s, p, b)
+    cell = "%s %d %s body=%s%s" % (m, s, p, b, "" if script["meta"].get("path", "plain") == "plain" else " (%s)" % script["meta"]["path"])
     # HEAD responses never have a body: the flow goes straight on
     has_body = b and m != "HEAD" and s not in (204, 304) and not (m == "CONNECT" and 200 <= s <= 299)
     i = next(k for k, op in enumerate(ops) if op.startswith("raw_try_response"))
